@@ -17,7 +17,7 @@ LEVEL = "exploration"
 TECHNIQUE = "runtime monitoring: phase-change callback stream + polled state judged against the legal-transition relation per operation, virtual clock, DetectingLock hang oracle, icontract length invariant"
 RULE = ("configs: max_operations 1..12, error_threshold 1..4, renewal on/off, lifetime {None,1h}, idle {None,5min}; sequences over "
         "{start, tick(0|1|2|5), record_error, heartbeat, check_timeouts, renew(None|0|1|3, reset_errors), trigger_apoptosis, terminate, reset, "
-        "advance clock (1min|6min|61min)}: depth <= 3 (quick) / <= 4 (thorough) swept on a config grid, each also without a leading start(); depth 5-7 sampled; "
+        "advance clock (1min|6min|61min)}: depth <= 3 (quick: 1/8 slice per run, rotated by seed) / <= 4 (thorough: 1/4 slice per run, rotated by seed) swept on a config grid, each also without a leading start(); depth 5-7 sampled; "
         "non-trivial = visits >= 3 phases; distinct = (phase trace, return-value trace)")
 ASSUMPTIONS = ["non-negative tick costs and renewal amounts", "reset() re-creates the lifecycle: absorbing-ness of TERMINATED is judged between resets",
                "TERMINATED->TERMINATED / APOPTOTIC->APOPTOTIC announcements are not moves; renew in APOPTOTIC may return True if the phase does not change",
@@ -75,7 +75,7 @@ def decode(idx, depth):
 
 def plan(tier):
     depth = 3 if tier == "quick" else 4
-    nsweep = len(SWEEP_CFG) * sweep_total(depth) // (8 if tier == "quick" else 1) * 2
+    nsweep = len(SWEEP_CFG) * sweep_total(depth) // (8 if tier == "quick" else 4) * 2
     extra = 9000 if tier == "quick" else 300000
     return {"cases": nsweep + extra, "shards": 8 if tier == "quick" else 14, "min_nontrivial": 300,
             "timeout": 600 if tier == "quick" else 2400,
@@ -87,7 +87,7 @@ def plan(tier):
 def run_case(ctx, n):
     depth = 3 if ctx.tier == "quick" else 4
     per = sweep_total(depth)
-    div = 8 if ctx.tier == "quick" else 1
+    div = 8 if ctx.tier == "quick" else 4
     nsweep = len(SWEEP_CFG) * per // div * 2
     if n < nsweep:
         half, k = divmod(n, nsweep // 2)
